@@ -5,6 +5,7 @@ import (
 	"fmt"
 	"html/template"
 	"math"
+	"reflect"
 	"time"
 
 	"github.com/gobuffalo/plush/v5"
@@ -32,8 +33,8 @@ func (t *T) PLabel() string {
 	return "PL:" + t.Name
 }
 func (t T) Add(a, b int) int { return a + b }
-func (t T) Self() T         { return t }
-func (t *T) PSelf() *T      { return t }
+func (t T) Self() T          { return t }
+func (t *T) PSelf() *T       { return t }
 func (t T) Fail() (string, error) {
 	return "", errors.New("T.Fail")
 }
@@ -130,7 +131,14 @@ var Kinds = []Kind{
 	{"iface_key_map", func() interface{} { return map[interface{}]string{1: "one", "k": "v"} }},
 	{"named_string", func() interface{} { return namedStr("ns") }},
 	{"pmap", func() interface{} { return &map[string]int{"a": 1} }},
+	{"reflect_value", func() interface{} { return reflect.ValueOf("rv<") }},
+	{"with_id", func() interface{} { return withID{ID: 7} }},
+	{"with_slug", func() interface{} { return &withSlug{Slug: "sl ug"} }},
+	{"with_zero_id", func() interface{} { return withID{} }},
 }
+
+type withID struct{ ID int }
+type withSlug struct{ Slug interface{} }
 
 type namedStr string
 
